@@ -116,6 +116,15 @@ def child(ex, p, g, n):
     nm = ex.bi.heap_array(p, "name", Str)
     if ex.is_ground(g.t, n.t):
         p.assume(z3.And(h > 0, pg[h] == g.t, nm[h] == n.t))
+    else:
+        # used under a quantifier: the defining facts of canonical handles for all (group, name) pairs. Canonical handles
+        # are ghost objects below the allocation frontier of the unit, so the initial field arrays describe them.
+        pg0 = z3.Const("heap0_pgid", pg.sort())
+        nm0 = z3.Const("heap0_name", nm.sort())
+        a, b = z3.Int("hid_g"), z3.String("hid_n")
+        ax = z3.ForAll([a, b], z3.And(HID(a, b) > 0, HID(a, b) < z3.Int("alloc0"), pg0[HID(a, b)] == a, nm0[HID(a, b)] == b),
+                       patterns=[HID(a, b)])
+        p.assume(ax)
     return VObj(h, "H5Group")
 
 
